@@ -75,7 +75,10 @@ def prop(spec, rec):
     crossed = False
     big_noise = False
     with patched_normal(spec["zs"]) as feed:
-        for i, pilot in enumerate(spec["pilots"]):
+        rep = int(spec.get("repeat", 1))
+        if rep * len(spec["pilots"]) >= 100:
+            labels.add("hundred_or_more_calls_on_one_battery")
+        for i, pilot in enumerate(list(spec["pilots"]) * rep):
             if i in spec.get("replug", ()):
                 # the driver moves the car: unplug, plug into another (idle) station
                 evse.unplug()
@@ -161,6 +164,8 @@ def cases(draw):
         "V": float(draw(st.sampled_from([120, 208, 240]))) if ints else draw(VOLT),
         "T": float(draw(st.sampled_from([1, 5, 7, 15, 60]))) if ints else draw(PERIOD),
         "pilots": pilots,
+        # the same pilot pattern over and over: one battery / EV / EVSE through hundreds of calls
+        "repeat": draw(st.sampled_from([1, 1, 1, 1, 1, 10, 40])),
         "ints": ints,
         "levels": levels,
         "bad_resets": sorted(draw(st.sets(st.integers(0, 29), max_size=2))),
